@@ -1255,6 +1255,62 @@ fn date_cases(sink: &mut Sink) {
     }
 }
 
+/// the numeric flags and settings of the other sub-commands: every value either works or is
+/// rejected with exit 2 — never a panic, an abort or a hang
+fn other_numeric_cases(sink: &mut Sink, bin: &str, scratch: &str) {
+    let values = ["0", "1", "3", "4294967296", "9223372036854775807", "18446744073709551615", "18446744073709551616", "-1", "1e3", ""];
+    let mut cases: Vec<(String, Vec<String>, Option<String>)> = vec![];
+    for v in values {
+        cases.push((format!("stats report --top {v}"), sv(&["stats", "report", "--no-sloc-cache", "--top", v]), None));
+        cases.push((format!("stats files --top {v}"), sv(&["stats", "files", "--no-sloc-cache", "--top", v]), None));
+        cases.push((format!("stats.report.top_count = {v}"), sv(&["stats", "report", "--no-sloc-cache"]), Some(format!("version = \"2\"\n[stats.report]\ntop_count = {}\n", if v.is_empty() { "\"\"" } else { v }))));
+        cases.push((format!("check --max-lines {v}"), sv(&["check", "--no-sloc-cache", "--max-lines", v, "."]), None));
+        cases.push((format!("check --max-files {v}"), sv(&["check", "--no-sloc-cache", "--max-files", v, "."]), None));
+        cases.push((format!("check --max-dirs {v}"), sv(&["check", "--no-sloc-cache", "--max-dirs", v, "."]), None));
+    }
+    for (label, args, cfg) in cases {
+        if !sink.want() {
+            sink.skip();
+            continue;
+        }
+        let dir = PathBuf::from(scratch).join(format!("n{}", sink.n));
+        project(&dir, cfg.as_deref().unwrap_or("version = \"2\"\n"));
+        let mut child = std::process::Command::new(bin).args(&args).current_dir(&dir).env("NO_COLOR", "1").stdout(std::process::Stdio::null()).stderr(std::process::Stdio::piped()).spawn().expect("run sloc-guard");
+        let t0 = std::time::Instant::now();
+        let mut hung = false;
+        let status = loop {
+            match child.try_wait() {
+                Ok(Some(st)) => break Some(st),
+                Ok(None) if t0.elapsed() > std::time::Duration::from_secs(20) => {
+                    let _ = child.kill();
+                    hung = true;
+                    break None;
+                }
+                Ok(None) => std::thread::sleep(std::time::Duration::from_millis(5)),
+                Err(_) => break None,
+            }
+        };
+        let mut err = String::new();
+        if let Some(mut e) = child.stderr.take() {
+            use std::io::Read;
+            let _ = e.read_to_string(&mut err);
+        }
+        let _ = child.wait();
+        let rc = status.and_then(|s| s.code());
+        let pred = if hung {
+            Some(format!("`{label}` did not finish within 20 s"))
+        } else if err.contains("panicked at") || rc == Some(101) {
+            Some(format!("`{label}` panicked: {}", err.lines().find(|l| l.contains("panicked")).unwrap_or("")))
+        } else if rc.is_none() || !matches!(rc, Some(0..=2)) {
+            Some(format!("`{label}` ended abnormally (exit {rc:?}): {}", err.lines().next().unwrap_or("")))
+        } else {
+            None
+        };
+        let _ = std::fs::remove_dir_all(&dir);
+        sink.push(Case { request: "noop".into(), implementation: "-".into(), pred: pred.map_or_else(|| "ok".to_string(), |p| format!("FAIL {p}")), tag: format!("numeric/{}/exit{}", label.split(' ').take(2).collect::<Vec<_>>().join("-"), rc.unwrap_or(-1)) });
+    }
+}
+
 pub fn run(tier: Tier, seed: u64, out: &str) {
     let mut sink = Sink::create(out);
     let mut rng = Rng::new(seed ^ 0xC17);
@@ -1263,6 +1319,7 @@ pub fn run(tier: Tier, seed: u64, out: &str) {
     if let Ok(bin) = std::env::var("SGVERIF_BIN") {
         preset_cases(&mut sink, &bin, &scratch);
         init_cases(&mut sink, &bin, &scratch);
+        other_numeric_cases(&mut sink, &bin, &scratch);
         for _ in 0..tier.scale(60, 400) {
             let mut r = rng.fork();
             toml_level_case(&mut sink, &mut r, &bin, &scratch);
